@@ -29,7 +29,7 @@ META = dict(
 )
 
 BAD_TOKENS = ["A", "Xx", "Ch", "Uue", "J", "Hx"]
-BAD_CHARGES = ["+-", "-+", "+2-", "++", "--", "-3+"]
+BAD_CHARGES = ["+-", "-+", "+2-", "++", "--", "-3+", "+-2", "-+3", "+-10", "-+"]
 
 
 def bounds(tier):
@@ -255,8 +255,11 @@ def run_chunk(chunk, tier):
         # history independence of the lazily built, memoised parser: the first cases of the chunk, parsed again after
         # everything else, must give the same observation
         for s, ref, c in first:
-            again, _ = _observe(s, both=False)
-            res.evaluations += 1
+            again, again_b = _observe(s, both=True)
+            res.evaluations += 2
+            if _same(again, ref) and not _same(again_b, ref):
+                res.violation("C01|B|Substance.from_formula|history-dependent", "Substance.from_formula(%r).composition = %r when created again after %d other formulas (written: %r)" % (s, again_b, res.states, ref),
+                              dict(layer="B", s=s, cost=c, ref={str(k): v for k, v in ref.items()}), again_b, ref)
             if not _same(again, ref):
                 res.violation("C01|B|formula_to_composition|history-dependent", "formula_to_composition(%r) = %r when parsed again after %d other formulas (written: %r)" % (s, again, res.states, ref),
                               dict(layer="B", s=s, cost=c, ref={str(k): v for k, v in ref.items()}), again, ref)
